@@ -23,7 +23,8 @@ Conv == [d \in Dialects |->
       ivl   |-> IF d \in {"mysql", "oracle"} THEN "out" ELSE "in", \* INTERVAL '1' DAY  vs  INTERVAL '1 DAY'
       wrap  |-> d # "mysql",                                      \* set operands in brackets
       pag   |-> IF d \in {"mssql", "oracle"} THEN "fetch" ELSE "limit",
-      gba   |-> d \notin {"mssql", "oracle"} ]]                   \* GROUP BY may name a select alias
+      gba   |-> d \notin {"mssql", "oracle"},                     \* GROUP BY may name a select alias
+      esc   |-> IF d = "mysql" THEN "backslash" ELSE "none" ]]     \* a backslash inside a string literal is written twice (MySQL reads \x as an escape)
 
 Units == {"YEAR", "MONTH", "DAY", "HOUR", "MINUTE", "SECOND", "MICROSECOND", "WEEK", "QUARTER"}
 
@@ -49,6 +50,12 @@ Broken(toks, d, boolmark, aliases) ==
                             /\ toks[x + 1].v = "BY" /\ toks[x + 2].t = "id" /\ toks[x + 2].v \in aliases}}
   \cup {"pagination" : i \in {x \in DOMAIN toks : toks[x].t = "word" /\
                             ((c.pag = "fetch" /\ toks[x].v = "LIMIT") \/ (c.pag = "limit" /\ toks[x].v = "FETCH"))}}
+
+\* string literals (other than the text of an INTERVAL) that do not read back, under the dialect's own escape rule (the lexer
+\* applies Conv[d].esc), as one of the values the program contains
+StringBroken(toks, strings) ==
+    {"string-escape" : i \in {x \in DOMAIN toks : strings # {} /\ toks[x].t = "str" /\ toks[x].v \notin strings
+                                                 /\ ~(x > 1 /\ toks[x - 1].t = "word" /\ toks[x - 1].v = "INTERVAL")}}
 
 \* ---- normalisation: erase the conventions
 NormTok(tk, boolmark) ==
